@@ -95,6 +95,19 @@ pub struct Case {
     /// header variant per file (see `header_variant`); missing = canonical
     #[serde(default)]
     pub hdr: Vec<u32>,
+    /// literal CSV text per file, when the text is not produced by this harness (e.g. a summary CSV
+    /// written by acb itself); `files[i]` then holds what that text is claimed to say
+    #[serde(default)]
+    pub raw: Vec<Option<String>>,
+}
+
+impl Case {
+    pub fn file_text(&self, i: usize) -> String {
+        match self.raw.get(i) {
+            Some(Some(t)) => t.clone(),
+            _ => csv_text_variant(&self.files[i], self.hdr.get(i).cloned().unwrap_or(0)),
+        }
+    }
 }
 
 pub const EPOCH_JD: i32 = 2440588; // Julian day of 1970-01-01
